@@ -85,7 +85,7 @@ def possibly_undefined(f: Func):
                         continue
                     seen.add(w)
                     work.append(w)
-            if hit and not (n.id in defs and not isinstance(n.ast, ast.AugAssign) and n.kind != "for"):
+            if hit:
                 out.append((nm, rd))
     return out
 
@@ -320,4 +320,101 @@ def iterables_consumed_twice(fn_node: ast.AST):
                         cons.append(n.lineno)
         if len(cons) > 1:
             out.append((name, "parameter annotated Iterable" if name in iters else f"result of the callback `{held[name]}`", sorted(cons)))
+    return out
+
+
+_COLLECTION_HINTS = ("Sequence", "list", "List", "dict", "Dict", "Mapping", "Iterable", "Collection", "set", "Set", "tuple", "Tuple", "Graph")
+_COPY_CALLS = {"list", "tuple", "dict"}
+
+
+def _is_preserving_copy(value: ast.AST, p: str) -> bool:
+    """`value` is an element- and order-preserving copy of parameter `p`, possibly with a default for None / empty."""
+    def is_p(e):
+        return isinstance(e, ast.Name) and e.id == p
+
+    def copy_of_p(e):
+        if is_p(e):
+            return True
+        if isinstance(e, ast.Call) and isinstance(e.func, ast.Name) and e.func.id in _COPY_CALLS and len(e.args) == 1 and not e.keywords and is_p(e.args[0]):
+            return True
+        if isinstance(e, ast.Call) and isinstance(e.func, ast.Attribute) and e.func.attr == "copy" and is_p(e.func.value) and not e.args:
+            return True
+        if isinstance(e, ast.Call) and isinstance(e.func, ast.Attribute) and e.func.attr == "deepcopy" and len(e.args) == 1 and is_p(e.args[0]):
+            return True
+        if isinstance(e, (ast.ListComp, ast.GeneratorExp)) and len(e.generators) == 1 and not e.generators[0].ifs and is_p(e.generators[0].iter) and isinstance(e.generators[0].target, ast.Name):
+            # [list(row) for row in p] / [row[:] for row in p] / [float(x) for x in p]
+            t = e.generators[0].target.id
+            el = e.elt
+            if isinstance(el, ast.Name) and el.id == t:
+                return True
+            if isinstance(el, ast.Call) and isinstance(el.func, ast.Name) and el.func.id in _COPY_CALLS | {"float", "int"} and len(el.args) == 1 and isinstance(el.args[0], ast.Name) and el.args[0].id == t:
+                return True
+            if isinstance(el, ast.Subscript) and isinstance(el.value, ast.Name) and el.value.id == t and isinstance(el.slice, ast.Slice) and el.slice.lower is None and el.slice.upper is None and el.slice.step is None:
+                return True
+            return False
+        if isinstance(e, ast.Call) and isinstance(e.func, ast.Name) and e.func.id in _COPY_CALLS and len(e.args) == 1 and isinstance(e.args[0], (ast.ListComp, ast.GeneratorExp)):
+            return copy_of_p(e.args[0])
+        return False
+
+    def is_default(e):
+        # a literal default that does not look at the parameter: [], {}, (), None, list(), dict()
+        return not any(isinstance(x, ast.Name) and x.id == p for x in ast.walk(e))
+
+    if copy_of_p(value):
+        return True
+    if isinstance(value, ast.IfExp):
+        arms = [value.body, value.orelse]
+        return any(copy_of_p(a) for a in arms) and all(copy_of_p(a) or is_default(a) for a in arms)
+    if isinstance(value, ast.BoolOp) and isinstance(value.op, ast.Or):
+        return copy_of_p(value.values[0]) and all(is_default(v) for v in value.values[1:])
+    return False
+
+
+def collection_params_rebound(fn_node: ast.AST):
+    """[(param, statement)]: a parameter that carries a collection (by annotation, or because the function iterates,
+    indexes or measures it) is rebound to something that is not an element- and order-preserving copy of itself."""
+    a = fn_node.args
+    params = {}
+    for x in a.posonlyargs + a.args + a.kwonlyargs:
+        if x.arg in ("self", "cls"):
+            continue
+        ann = ast.unparse(x.annotation) if x.annotation is not None else ""
+        params[x.arg] = ann
+    if not params:
+        return []
+
+    def own(n):
+        for c in ast.iter_child_nodes(n):
+            if isinstance(c, (ast.FunctionDef, ast.AsyncFunctionDef, ast.Lambda, ast.ClassDef)):
+                continue
+            yield c
+            yield from own(c)
+
+    nodes = list(own(fn_node))
+    used_as_collection = set()
+    for n in nodes:
+        if isinstance(n, (ast.For, ast.comprehension)) and isinstance(n.iter, ast.Name):
+            used_as_collection.add(n.iter.id)
+        elif isinstance(n, ast.Subscript) and isinstance(n.value, ast.Name):
+            used_as_collection.add(n.value.id)
+        elif isinstance(n, ast.Call) and isinstance(n.func, ast.Name) and n.func.id in ("len", "zip", "enumerate", "sorted", "sum", "min", "max", "any", "all"):
+            for arg in n.args:
+                if isinstance(arg, ast.Name):
+                    used_as_collection.add(arg.id)
+    out = []
+    for n in nodes:
+        if not isinstance(n, ast.Assign):
+            continue
+        for t in n.targets:
+            names = [t] if isinstance(t, ast.Name) else ([e for e in t.elts if isinstance(e, ast.Name)] if isinstance(t, ast.Tuple) else [])
+            for nm in names:
+                if nm.id not in params:
+                    continue
+                ann = params[nm.id]
+                coll = any(h in ann for h in _COLLECTION_HINTS) if ann else nm.id in used_as_collection
+                if not coll:
+                    continue
+                if isinstance(t, ast.Name) and _is_preserving_copy(n.value, nm.id):
+                    continue
+                out.append((nm.id, n))
     return out
